@@ -556,6 +556,14 @@ def cmd_check(cid: str, tier: str) -> int:
                                               "pull/frame/write/read/fault/switch event with its arguments)",
             "batch_digest": h.hexdigest(),
             "components": getattr(mod, "COMPONENTS", {}),
+            "build_variants": {
+                "interpreted working tree (this process)": tot["runs"] - probes.get("python_O_runs", 0)
+                - probes.get("mypyc_build_runs", 0),
+                "same tree in a child interpreter started with python -O": probes.get("python_O_runs", 0),
+                "mypyc build of the same tree (the modules pyproject.toml compiles) in a child interpreter":
+                    probes.get("mypyc_build_runs", 0),
+                "mypyc_build": os.environ.get("VERIF_MYPYC_BUILD") or "not available / disabled",
+            },
             "known_findings_seen": known_seen,
             "fixed_entries": fixed,
             "violation_signatures": [sk for sk, _ in new_violations],
